@@ -471,9 +471,9 @@ func c16Run(c *core.Ctx) {
 	// (1c) deep chains: the same constructor (and alternating pairs) nested 5, 9, 17 and 33 deep
 	{
 		ns := gen.Nesters(true)
-		depths := []int{5, 9, 17}
+		depths := []int{5, 9, 17, 33, 65}
 		if c.Thorough() {
-			depths = append(depths, 33, 65)
+			depths = append(depths, 129, 257)
 		}
 		for _, d := range depths {
 			for i := range ns {
@@ -494,6 +494,45 @@ func c16Run(c *core.Ctx) {
 					}
 					c.Inc("deep_chain_programs")
 					runProg(body, fmt.Sprintf("deep:%d:%s/%s", d, ns[i].Name, ns[j].Name), 0)
+				}
+			}
+		}
+	}
+	// (1d) one constructor A around d levels of another constructor B around a leaf (and the reverse: d levels of B with A
+	// innermost): the outermost / innermost level is the only one of its kind, so a stack representation that loses or
+	// confuses levels beyond a capacity changes an answer even when all the other levels are alike
+	{
+		ns := gen.Nesters(true)
+		depths := []int{8, 16, 32, 64}
+		if c.Thorough() {
+			depths = append(depths, 128, 256)
+		}
+		for _, d := range depths {
+			for i := range ns {
+				for j := range ns {
+					if i == j {
+						continue
+					}
+					if !c.Thorough() && !(i < 3 || j < 3) {
+						continue // quick tier: one of the two is block / funcdecl / fnarg
+					}
+					for _, outer := range []bool{true, false} {
+						if !c.Next() || c.Tick() {
+							continue
+						}
+						body := []*gen.Node{gen.Ex(gen.Ca(gen.I("f"), gen.I("b")))}
+						if !outer {
+							body = []*gen.Node{gen.Ex(gen.I("u")), ns[i].Wrap(body), gen.Ex(gen.Ca(gen.I("v")))}
+						}
+						for l := 0; l < d; l++ {
+							body = []*gen.Node{gen.Ex(gen.I("u")), ns[j].Wrap(body), gen.Ex(gen.Ca(gen.I("v")))}
+						}
+						if outer {
+							body = []*gen.Node{gen.Ex(gen.I("u")), ns[i].Wrap(body), gen.Ex(gen.Ca(gen.I("v")))}
+						}
+						c.Inc("deep_chain_programs")
+						runProg(body, fmt.Sprintf("deep1:%d:%s around/inside %s outer=%v", d, ns[i].Name, ns[j].Name, outer), 0)
+					}
 				}
 			}
 		}
@@ -606,7 +645,7 @@ var _ = lexer.NewBuilder
 func init() {
 	core.Register(&core.PropSpec{
 		ID: "C16", Level: "model_checking",
-		Rule:     "context stack vs reference nesting model: every chain of <= d nesting constructors (d=3 quick; 4 full alphabet + 5 reduced alphabet thorough) over {block, if/else/while/for block, function declaration, function expression as call argument / array element / object value / let initialiser / return value / IIFE / inside if-, while- and for-headers / operand / index} around 3 leaf bodies, with a sibling statement before and after the nested construct at every level, plus the statement families (brace-less bodies); each parsed (space layout and LF-in-every-gap layout) with one statement and one expression interceptor that record IsInFunction(), CurrentContext() and the current token; oracle per invocation: the token's nesting path recorded by the harness unparser (function body braces = function body, not an extra block) gives IsInFunction <=> path contains a function and CurrentContext = innermost element. Final-state clause: ALL token sequences <= n (4 quick, 5 thorough) x modes, all byte strings <= 4, every truncation of every nested program at a token boundary and every single-token deletion: after ParseProgram CurrentContext()=global and IsInFunction()=false, with and without interceptors. states = distinct context stacks observed at an invocation; transitions = interceptor invocations checked Added: every ordered pair of nesting constructors x leaf bodies side by side (top level and inside a function); chains of one constructor (and alternating pairs) nested 5, 9, 17 (33, 65 thorough) deep; sub-parse clause: every program again with a statement interceptor that parses a nested snippet with a SECOND parser of the same builder before answering.",
+		Rule:     "context stack vs reference nesting model: every chain of <= d nesting constructors (d=3 quick; 4 full alphabet + 5 reduced alphabet thorough) over {block, if/else/while/for block, function declaration, function expression as call argument / array element / object value / let initialiser / return value / IIFE / inside if-, while- and for-headers / operand / index} around 3 leaf bodies, with a sibling statement before and after the nested construct at every level, plus the statement families (brace-less bodies); each parsed (space layout and LF-in-every-gap layout) with one statement and one expression interceptor that record IsInFunction(), CurrentContext() and the current token; oracle per invocation: the token's nesting path recorded by the harness unparser (function body braces = function body, not an extra block) gives IsInFunction <=> path contains a function and CurrentContext = innermost element. Final-state clause: ALL token sequences <= n (4 quick, 5 thorough) x modes, all byte strings <= 4, every truncation of every nested program at a token boundary and every single-token deletion: after ParseProgram CurrentContext()=global and IsInFunction()=false, with and without interceptors. states = distinct context stacks observed at an invocation; transitions = interceptor invocations checked Added: every ordered pair of nesting constructors x leaf bodies side by side (top level and inside a function); chains of one constructor (and alternating pairs) nested 5, 9, 17, 33, 65 (129, 257 thorough) deep; one constructor around (and innermost inside) 8, 16, 32, 64 (128, 256) levels of another constructor, for every ordered pair; sub-parse clause: every program again with a statement interceptor that parses a nested snippet with a SECOND parser of the same builder before answering.",
 		Assume:   []string{"nesting paths come from the harness unparser; its statement structure is cross-checked against goja by C02"},
 		QuickSec: 300, ThorSec: 3600, Run: c16Run, Replay: c16Replay,
 		Evals: "programs_parsed", Nontriv: "programs_with_invocations", States: "states", Trans: "interceptor_invocations",
